@@ -47,6 +47,22 @@ def gen_graph(rng, version):
         key = (kind, a, oa, b, ob)
         ckey = (kind, b, S.inv(ob), a, S.inv(oa))
         if key in seen or ckey in seen:
+            # identical parallel edges are legal for containments and for unnamed GFA2 edges
+            # (duplicate GFA1 links are refused by design)
+            if (version == "gfa1" and kind == "L") or rng.random() < 0.5:
+                continue
+            feats.add("parallel-identical")
+            dup = [x for x in lines if x.split("\t")[0] in ("C", "E") and
+                   ((version == "gfa1" and x.split("\t")[1:5] == [a, oa, b, ob]) or
+                    (version == "gfa2" and x.split("\t")[2:4] == [a + oa, b + ob] and x.split("\t")[1] == "*"))]
+            if dup:
+                d = dup[0]
+                if rng.random() < 0.5 and "RC:i:" not in d and version == "gfa2":
+                    # counts which become equal only after the division
+                    lines.append(d + "\tRC:i:9")
+                    lines[lines.index(d)] = d + "\tRC:i:8"
+                else:
+                    lines.append(d)
             continue
         seen.add(key)
         tags = []
@@ -247,20 +263,26 @@ def run(case, ctx):
         aedges = [e for e in arecs if touches(e, [x])]
         asigs = [edge_sig(e, version) for e in aedges]
         wsigs = [edge_sig(e, version, (sname, x)) for e in bedges]
-        # no invented edge
+        # no invented edge (multiset: identical parallel edges count)
+        from collections import Counter
+        ca, cw = Counter(asigs), Counter(wsigs)
         for e, sg in zip(aedges, asigs):
-            if sg not in wsigs:
-                problems.append(("invented-edge", "%r on %s" % (e.text(), x)))
-        # counts divided
-        for e in aedges:
-            sg = edge_sig(e, version)
-            for be in bedges:
-                if edge_sig(be, version, (sname, x)) == sg and not counts_ok(be.tags, e.tags, k):
-                    problems.append(("edge-counts-not-divided", "%r from %r" % (e.text(), be.text())))
+            if ca[sg] > cw[sg]:
+                problems.append(("invented-edge", "%r on %s (x%d, expected x%d)" % (e.text(), x, ca[sg], cw[sg])))
+        # counts divided (edges with one signature are matched in the order of their counts)
+        def cnt(rec):
+            return tuple(sorted((t[0], int(t[2])) for t in rec.tags if t[0] in COUNT_TAGS))
+        for sg in set(asigs):
+            bs = sorted((be for be in bedges if edge_sig(be, version, (sname, x)) == sg), key=cnt)
+            as_ = sorted((e for e in aedges if edge_sig(e, version) == sg), key=cnt)
+            if len(bs) == len(as_):
+                for be, e in zip(bs, as_):
+                    if not counts_ok(be.tags, e.tags, k):
+                        problems.append(("edge-counts-not-divided", "%r from %r" % (e.text(), be.text())))
         # completeness per class
         for be, sg in zip(bedges, wsigs):
             ends = end_of(be, version, sname)
-            present = sg in asigs
+            present = ca[sg] >= cw[sg]
             if not ends:
                 if not present:
                     full_ok["C"] = False
